@@ -11,7 +11,7 @@ Not decided: which strings the character scanner accepts (the accepted language)
 import re
 
 from xvlib.core import Check
-from xvlib.absint import Interp, run_function
+from xvlib.absint import Interp, run_function, unparen
 from xvlib.facts import walk, show, strip_casts, calls_in
 from xvlib.normform import Rat
 from rules.common import sets_error
@@ -514,16 +514,21 @@ def compound_parser(prog, chk):
     chk.decide(okr, 'no-weight-rejected', U, f['name'], 'AtomicWeight == 0', loc,
                'an element without tabulated atomic weight must end in NULL with the error reported by AtomicWeight(Z, error)', why='NULL, error from AtomicWeight')
     # locale
-    locale_bracket(chk, f)
-    body = f['body'].get('c', [])
-    idx = {}
-    for i, s_ in enumerate(body):
-        for c in calls_in(s_):
-            if c.get('callee') == 'setlocale':
-                idx.setdefault('locale', []).append(i)
-            if c.get('callee') == 'CompoundParserSimple':
-                idx['parse'] = i
-    inside = 'parse' in idx and len(idx.get('locale', [])) >= 3 and idx['locale'][1] < idx['parse'] < idx['locale'][-1]
+    locale_bracket(chk, f, prog)
+    # on every path that runs the scanner, a changing setlocale call precedes it and the restoring one follows it (read off the
+    # abstract paths, so it does not matter whether the locale calls sit in this function or in a helper of it)
+    inside, nscan = True, 0
+    for p in paths:
+        ev = [e for e in p.events if e.kind == 'call' and e.name in ('setlocale', 'CompoundParserSimple')]
+        at = [i_ for i_, e in enumerate(ev) if e.name == 'CompoundParserSimple']
+        if not at:
+            continue
+        nscan += 1
+        before = [e for e in ev[:at[0]] if e.name == 'setlocale' and len(e.args or []) > 1 and not (e.args[1] is not None and e.args[1].canon() == '0')]
+        after = [e for e in ev[at[-1] + 1:] if e.name == 'setlocale']
+        if not before or not after:
+            inside = False
+    inside = inside and nscan > 0
     chk.decide(inside, 'locale-bracket', U, f['name'], 'strtod-inside-bracket', loc,
                'the call that converts subscripts (strtod, inside CompoundParserSimple) must lie between the locale change and its restoration',
                why='CompoundParserSimple is called inside the bracket')
@@ -588,16 +593,21 @@ def add_compound(prog, chk):
                'the element list of the result must start as a copy of all nElements elements of the longer operand', why='copy of longest->Elements, nElements = longest->nElements')
     # union loop: an element of the shorter list is appended iff it equals no element of the longer list
     oku = loop_range(union, 'shortest->nElements')
-    inner = [n for n in walk(union['body']) if n.get('k') == 'ForStmt']
-    oku = oku and len(inner) == 1 and loop_range(inner[0], 'longest->nElements')
     itu, pu = frag(prog, f, union['body'])
+    # the search loop: read off the paths (it may sit in a helper that the engine inlined): one loop 0 <= v < longest->nElements
+    inner = {}
+    for p in pu:
+        for e in p.events:
+            if e.kind == 'loop-begin' and e.node is not None:
+                inner[e.id] = (e.node, e.value.canon() if hasattr(e.value, 'canon') else None)
+    oku = oku and len(inner) == 1 and all(loop_range(nd, '') and bv == 'longest.nElements' for nd, bv in inner.values())
     n_app = n_skip = 0
     for p in pu:
         if p.status != 'end':
             oku = False
             continue
-        eq = [k for k, v in p.facts.items() if 'longest.Elements[' in k and 'shortest.Elements[i]' in k and v.is_zero()]
-        ne = [k for k, v in p.facts.items() if 'longest.Elements[' in k and 'shortest.Elements[i]' in k and v.excludes_zero()]
+        eq = [k for k, v in p.facts.items() if 'longest.Elements[' in unparen(k) and 'shortest.Elements[i]' in unparen(k) and v.is_zero()]
+        ne = [k for k, v in p.facts.items() if 'longest.Elements[' in unparen(k) and 'shortest.Elements[i]' in unparen(k) and v.excludes_zero()]
         none = it_none(itu, p)
         app = [e for e in p.events if e.kind == 'store' and re.search(r'\.nElements$', e.lv)]
         if app:
